@@ -35,6 +35,17 @@ for _name, _loop in {
     "loop_nested_empty": "loop { while flag { } }", "for_huge_empty": "for i in 0..2000000000 { }",
     "for_huge_literal": "for i in 0..2000000000 { n; }", "loop_index": "loop { l[0]; }", "loop_member": "loop { l.len(); }",
     "loop_in_closure": "let f = fn() -> null { loop { } }; f();", "while_in_if": "if flag { while true { } }",
+    # loops that are left and entered again through an exception, a call, a return, a break in every round: no way of
+    # going round may skip the look at the signal for good
+    "loop_throw_catch": "loop { try { throw(\"x\"); } catch e { } }", "loop_throw_catch_count": "loop { try { throw(\"x\"); } catch e { n += 1; } }",
+    "loop_member_throw_catch": "loop { try { \"x\".parse_int(); } catch e { } }",
+    "loop_unwrap_throw_catch": "let o: ?int = none; loop { try { o.unwrap(); } catch e { n = 1; } }",
+    "loop_callee_throws": "let t = fn() -> null { throw(\"x\"); }; loop { try { t(); } catch e { } }",
+    "loop_throw_in_catch_caught": "loop { try { try { throw(\"a\"); } catch e { throw(\"b\"); } } catch f { } }",
+    "loop_inner_break": "loop { loop { break; } }", "loop_inner_for_break": "loop { for i in 0..9 { break; } }",
+    "loop_call_returning_early": "let r = fn() -> int { for i in 0..9 { return i; } 0 }; loop { r(); }",
+    "loop_match_throw_catch": "loop { try { match n { 1 => throw(\"x\"), _ => null } } catch e { } }",
+    "while_throw_catch": "while flag { try { throw(\"x\"); } catch e { } }", "for_huge_throw_catch": "for i in 0..2000000000 { try { throw(\"x\"); } catch e { } }",
     "loop_let": "loop { let z = 1; }", "loop_assign": "loop { n = 1; }", "loop_none": "loop { none; }", "loop_null": "loop { null; }",
 }.items():
     PROGRAMS["spin_" + _name] = (_PRE + _loop + " }\n", True, False)
@@ -59,8 +70,8 @@ def run(args):
         for b in (("vm", "tree") if tree else ("vm",)):
             base.append((name, src, b, fin))
     res = pool.map([{"op": "run", "id": i, "a": {"modules": {"main": s}, "entry": "main", "backend": b, "trace": True,
-                                                 "timeout_ms": 1500 if not fin else 20000}}
-                    for i, (n, s, b, fin) in enumerate(base)], timeout=40)
+                                                 "timeout_ms": (400 if n.startswith("spin_") else 1500) if not fin else 20000}}
+                    for i, (n, s, b, fin) in enumerate(base)], timeout=60)
     plan = []
     for (name, src, b, fin), r in zip(base, res):
         rep.count()
